@@ -166,13 +166,13 @@ def _roundtrip(host, respond, cookie):
 
 def obligations(tier):
     thorough = tier == "thorough"
-    get = [dict(hl=h, dl=d) for h in range(0, (10 if thorough else 8)) for d in range(0, (7 if thorough else 5))]
+    get = [dict(hl=h, dl=d) for h in range(0, (12 if thorough else 8)) for d in range(0, (9 if thorough else 5))]
     get += [dict(hl=h, dl=d, two=True) for h in (1, 3) for d in (1, 2)]
     hist = [dict(nresp=n) for n in ((1, 2, 3) if thorough else (1, 2))] + [dict(nresp=1, merged=True), dict(nresp=2, merged=True),
                                                                             dict(nresp=1, client_cookie=True), dict(nresp=2, client_cookie=True),
                                                                             dict(nresp=1, redirect=True), dict(nresp=2, redirect=True)]
     return [
-        Obligation("J-get", j_get, get, bounds="host of 0..%d and domain of 0..%d symbolic ASCII characters; one or two stored domains" % (9 if thorough else 7, 6 if thorough else 4),
+        Obligation("J-get", j_get, get, bounds="host of 0..%d and domain of 0..%d symbolic ASCII characters; one or two stored domains" % (11 if thorough else 7, 8 if thorough else 4),
                    must_cover=["sent", "not-sent"], budget_s=1800, kernel=["SimpleCookieJar.get"]),
         Obligation("J-hostopt", j_hostopt, [dict(target_i=t, hostopt_i=h) for t in range(4) for h in range(3)],
                    bounds="4 targets x 3 values of the host= option with two cookie domains in the jar", must_cover=["hostopt"], step_budget=100000,
